@@ -111,8 +111,7 @@ def is_local_collection(b, e):
             return True
         if c.endswith("::collect") or c == "core::iter::traits::iterator::Iterator::collect":
             return True
-    path = recv_path(b, e)
-    return path in ("victims", "rejected_candidates")
+    return False
 
 
 def is_state_receiver(b, e):
@@ -248,8 +247,18 @@ def clause1(P, res, helpers):
             continue
         rems = [r for r, _ in removal_sites(P, b, helpers) if not ghost_reason(b, r)]
         pushes = [e for e in b.calls() if e.callee == VEC + "push" and is_local_collection(b, e) and len(e.args) > 1]
+        acc = set()
+        for t in b.events:
+            if t.kind == "assign" and t.data["p"][0] == 0 and t.data["r"]["k"] == "tuple" and len(t.data["r"]["ops"]) == 2:
+                pl = mir.op_place(t.data["r"]["ops"][1])
+                if pl is not None:
+                    acc |= mir.alias_locals(b, pl[0]) | {pl[0]}
+                    # the accumulator proper: follow plain copies backwards
+                    for x in b.events:
+                        if x.kind == "assign" and x.data["p"][0] in acc and x.data["r"]["k"] == "use" and mir.op_place(x.data["r"]["o"]) is not None:
+                            acc.add(mir.op_place(x.data["r"]["o"])[0])
         adds = [e for e in b.events if e.kind == "assign" and e.data["r"]["k"] == "bin" and e.data["r"]["op"] in ("AddWithOverflow", "Add")
-                and b.path_of_operand(e.data["r"]["a"], through_user=False).startswith("total")]
+                and mir.op_place(e.data["r"]["a"]) is not None and mir.op_place(e.data["r"]["a"])[0] in acc]
         if not pushes and not adds:
             # pure delegation: the return value must come from a helper that is itself checked
             deleg = [e for e in b.calls() if e.callee_resolved in helpers or e.callee in helpers]
@@ -323,10 +332,14 @@ def clause2(P, res, helpers):
 
 
 def cost_param(b):
-    for i in range(1, b.argc + 1):
-        if b.locals[i].get("name") == "cost":
-            return i
-    return None
+    """the u64 parameter (the trait fixes the signature: on_admit(&self, key: &K, cost: u64)) — selected by type, not by name"""
+    c = [i for i in range(2, b.argc + 1) if b.locals[i].get("ty") == "u64"]
+    return c[0] if len(c) >= 1 else None
+
+
+def key_params(b):
+    """parameters that are a key or a reference to one (type K / &K) — selected by type, not by name"""
+    return {i for i in range(2, b.argc + 1) if b.locals[i].get("ty") in ("&K", "K", "&'_ K")} or {2}
 
 
 def clause3(P, res):
@@ -360,6 +373,46 @@ def clause3(P, res):
         else:
             res.violated(rid, key, "a path through on_admit returns without recording the cost it was given: a key that is already tracked keeps its stale cost, "
                          "evict() then budgets and reports with the old number", where=f"{b.file}:{b.line}", witness=[f"sink {s.loc}" for s in sinks])
+
+
+def clause3b(P, res):
+    rid = "C14-3"
+    # helpers that some on_admit hands its cost parameter to (directly, or through a locking forwarder)
+    used = set()
+    for ob in bodies(P):
+        if not trait_method(ob, "on_admit"):
+            continue
+        ocp = cost_param(ob)
+        for e in ob.calls():
+            if (e.callee in ACCESS_HELPERS or e.callee in INSERT_HELPERS) and ocp is not None and any(ocp in SRC(ob, a)[1] for a in e.args[1:]):
+                used.add(e.callee)
+    for hid in sorted(used):
+        b = P.body(hid)
+        if b is None:
+            continue
+        fw = [e for e in b.calls() if e.callee in ACCESS_HELPERS or e.callee in INSERT_HELPERS]
+        if fw and not any(e.callee in COST_WRITERS for e in b.calls()):
+            b = P.body(fw[0].callee) or b  # a locking forwarder: judge the function it forwards to
+            hid = b.id
+        cp = cost_param(b)
+        if cp is None:
+            res.unclassified(rid, f"{hid}:helper", "helper used as a cost sink has no u64 parameter", where=f"{b.file}:{b.line}")
+            continue
+        sinks = []
+        for e in b.calls():
+            if e.args and is_state_receiver(b, e) and (e.callee in COST_WRITERS or e.callee in INSERT_HELPERS or e.callee in ACCESS_HELPERS):
+                if any(cp in SRC(b, a)[1] for a in e.args[1:]):
+                    sinks.append(e)
+        edges = tracked_edges(b, key_params(b) | {i for i in range(2, b.argc + 1) if b.locals[i].get("ty") in ("K", "&K")})
+        starts = [(t, 0) for _, t in edges]
+        key = f"{hid}:tracked-path"
+        if not edges:
+            res.unclassified(rid, key, "helper used as a cost sink has no tracked-test the rule recognises", where=f"{b.file}:{b.line}")
+        elif sinks and cl.all_paths_pass(b, starts, [x.pos for x in sinks]):
+            res.holds(rid, key, f"every path on which the key was found tracked records the given cost ({len(sinks)} sink(s))", where=f"{b.file}:{b.line}")
+        else:
+            res.violated(rid, key, f"{b.name} finds the key tracked and returns without recording the cost it was given: callers (on_admit of the policies built on it) rely on "
+                         "this helper to update the recorded cost of a re-admitted key", where=f"{b.file}:{b.line}", witness=[f"sink {x.loc}" for x in sinks])
 
 
 def tracked_edges(b, key_args):
@@ -396,7 +449,7 @@ def clause4(P, res):
     for b in bodies(P):
         if not (trait_method(b, "on_access") or b.id in ACCESS_HELPERS):
             continue
-        key_args = {i for i in range(1, b.argc + 1) if b.locals[i].get("name") == "key"}
+        key_args = key_params(b)
         ins = [e for e in b.calls() if (e.callee in INSERTERS or e.callee in INSERT_HELPERS) and is_state_receiver(b, e)]
         if not ins:
             res.holds(rid, b.id, "no insertion-capable call", where=f"{b.file}:{b.line}", nontrivial=False)
@@ -487,8 +540,8 @@ def clause6(P, res):
                     ops = [rv[x] for x in ("o", "a", "b") if isinstance(rv.get(x), dict)] + list(rv.get("ops", []) or [])
                     for o in ops:
                         evs, args, _ = SRC(b, o)
-                        names = {b.locals[i].get("name") for i in args}
-                        if a in evs or "cost" in names or any(".cost" in b.path_of_operand(o) for _ in (0,)):
+                        u64_args = {i for i in args if b.locals[i].get("ty") == "u64"}
+                        if a in evs or u64_args or ".cost" in b.path_of_operand(o):
                             good = True
                 if not good:
                     problems.append("the amount written to current_cost is not derived from the node's cost")
@@ -535,7 +588,7 @@ def clause7(P, res):
         else:
             res.holds(rid, fifo_acc.id, "access is a no-op", where=f"{fifo_acc.file}:{fifo_acc.line}", nontrivial=False)
     if fifo_adm:
-        key_args = {i for i in range(1, fifo_adm.argc + 1) if fifo_adm.locals[i].get("name") == "key"}
+        key_args = key_params(fifo_adm)
         movers = [e for e in fifo_adm.calls() if e.callee in (LRULIST + "push_front", LRULIST + "move_to_front")]
         not_tracked = []
         for e in fifo_adm.calls():
@@ -558,6 +611,7 @@ def run(P, ctx):
     n1 = clause1(P, res, helpers)
     n2 = clause2(P, res, helpers)
     clause3(P, res)
+    clause3b(P, res)
     clause4(P, res)
     clause5(P, res)
     clause6(P, res)
